@@ -101,6 +101,16 @@ class StoreLog:
                 return other
         return None
 
+    def shares_anchor_with(self, url):
+        """another key that was swapped out under the same rock anchor at any time (its slots may still be on disk)"""
+        a0 = self.rock_anchor(url)
+        if a0 is None:
+            return None
+        for other in self.last_swapout:
+            if other != url and self.rock_anchor(other) == a0:
+                return other
+        return None
+
     def poll(self):
         try:
             f = open(self.path, "rb")
@@ -295,6 +305,11 @@ def run(a, res):
                 prior = [versions[x]["len"] for k, x in u["events"] if k == "version" and x != rid and versions[x]["t"] < v["t"]]
             # coarse sub-key: did this version replace earlier versions of the same URL in this cache_dir?
             sub = ":overwritten-url" if prior else ":first-version"
+            other = slog.shares_anchor_with(url) if inst == "rock" else None
+            if other:
+                # this entry was the LAST one written under its anchor (otherwise it would have been grey above), but an
+                # earlier entry of a colliding key left its slots on disk: the rebuild sees two keys for one anchor
+                sub = ":anchor-shared-with-another-key"
             res.violation("lost-after-clean-restart:" + inst + sub,
                           f"[{inst}] round {ri}: version {rid} ({v['status']}, {v['len']} body bytes, origin framing {v['framing']}) had a SWAPOUT line and no RELEASE, "
                           f"squid stopped with exit code 0, but after the restart the request went to the origin (client got rid {got}, status {m.status}); "
